@@ -54,6 +54,9 @@ type segCase struct {
 	// server answers it with one exception frame (9 bytes, contents not judged here) - as soon as it has the 8 bytes it classifies by -
 	// and serves the requests after it as if it had not been there, however the joined stream is fragmented.
 	Runt spec.Hex `json:"runt,omitempty"`
+	// LateReads k > 0 (level B): every k-th non-empty read of the server's connections also reports an expired read deadline
+	// (xport.PipeListener.LateEvery); the bytes are part of the stream all the same
+	LateReads int `json:"late_reads,omitempty"`
 }
 
 // errorUnit: requests with a unit id at or above this are answered by the handler with a typed error
@@ -273,6 +276,7 @@ func (o offsetCollector) Closed() (bool, error)               { return o.c.Close
 func runServer(c segCase, p plan, ref []byte) error {
 	var finishInterloper func() error
 	l := xport.NewPipeListener()
+	l.LateEvery = c.LateReads
 	h := &srv.Handler{Dev: device.New(c.DevSeed), ErrorFromUnit: errorUnit}
 	closedConns := make(chan struct{}, 8)
 	s := &server.Server{ReadTimeout: 20 * time.Millisecond, WriteTimeout: 2 * time.Second, OnErrorFunc: func(error) {},
@@ -541,6 +545,9 @@ func genSeg(t *rapid.T, level string) segCase {
 			c.Cuts = append(c.Cuts, at)
 		}
 		L += len(c.Runt)
+	}
+	if level == "B" {
+		c.LateReads = rapid.SampledFrom([]int{0, 0, 1, 2, 3}).Draw(t, "late_reads")
 	}
 	if level == "B" {
 		// the server reads at most 300 bytes per read: keep segments <= 300 so that one write is one read
